@@ -131,6 +131,19 @@ impl DirEntry {
     pub fn path(&self) -> PathBuf {
         self.0.clone()
     }
+    /// As std's: the name without the directory.
+    pub fn file_name(&self) -> std::ffi::OsString {
+        self.0.file_name().map(std::ffi::OsStr::to_os_string).unwrap_or_default()
+    }
+    /// As std's: what the entry is, without following a symbolic link (asks the real file
+    /// system: the simulator keeps a real directory or placeholder file for every entry).
+    pub fn file_type(&self) -> std::io::Result<std::fs::FileType> {
+        std::fs::symlink_metadata(&self.0).map(|m| m.file_type())
+    }
+    /// As std's: the metadata of the entry itself (a symbolic link is not followed).
+    pub fn metadata(&self) -> std::io::Result<std::fs::Metadata> {
+        std::fs::symlink_metadata(&self.0)
+    }
 }
 
 /// Stands in for `std::fs::ReadDir`: the listing of one directory.
